@@ -252,3 +252,35 @@ H_ENTRY(h_interpolate) {
   H_END();
 }
 #endif
+
+// ---------------------------------------------------------------- conversion between the two big-number back ends (hex text)
+#ifdef H_GCRYCONV
+#include <gcrypt.h>
+#include "mpz_helper.hh"
+H_ENTRY(h_gcry_conv) {
+  Z v, w; vfh_mpz(v, 0, 1L << H_CONVBITS);
+  gcry_mpi_t m = gcry_mpi_new(32);
+  bool ok1 = tmcg_mpz_get_gcry_mpi(m, v);
+  vf_assert(ok1, "mpz -> gcry_mpi succeeds for every non-negative integer");
+  vf_assert(gcry_mpi_cmp_ui(m, (unsigned long)mpz_get_ui(v)) == 0, "the gcry_mpi holds the same value");
+  bool ok2 = tmcg_mpz_set_gcry_mpi(m, w);
+  vf_assert(ok2 && mpz_cmp(v, w) == 0, "mpz -> gcry_mpi -> mpz is lossless");
+  vf_assert(tmcg_get_gcry_mpi_ui(m) == (size_t)mpz_get_ui(v), "tmcg_get_gcry_mpi_ui returns the value");
+  H_END();
+}
+#endif
+
+// ---------------------------------------------------------------- table powers with the result aliasing the exponent
+// (the library itself calls tmcg_mpz_fpowm(table, foo, g, foo, p) / fspowm likewise when it checks published shares)
+H_ENTRY(h_fpowm_alias) {
+  mpz_t *tab = new mpz_t[TMCG_MAX_FPOWM_T]();
+  Z p, m, x, ref;
+  table_setup(tab, p, m);
+  vfh_mpz(x, -(1L << TMCG_MAX_FPOWM_T) + 1, 1L << TMCG_MAX_FPOWM_T);
+  bool constant_time = vf_nondet_u8() & 1;
+  mpz_powm(ref, m, x, p);
+  if (constant_time) H_TRY(tmcg_mpz_fspowm(tab, x, m, x, p)); else H_TRY(tmcg_mpz_fpowm(tab, x, m, x, p));
+  vf_assert(vfh_exc == 0, "table power accepts an exponent within the table limit when the result aliases the exponent");
+  vf_assert(mpz_cmp(x, ref) == 0, "table power == m^x mod p when the result object is the exponent object (either sign)");
+  H_END();
+}
